@@ -15,6 +15,18 @@ use serde_json::{json, Value};
 
 /// a tree-shaped library (block references form a tree: path enumeration stays linear)
 pub fn gen_library(seed: u64, n: usize) -> BTreeMap<String, String> {
+    if seed == 1 {
+        // the tiny library (n notes, at most 5) whose every insert order is tried: a chain of inclusions, a link
+        // in a first heading, two notes with the same title, a note without heading
+        let all: Vec<(&str, &str)> = vec![
+            ("t1", "# Tiny [old](t2)\n\n[two](t2)\n\ntext [l](d/t4)\n"),
+            ("t2", "# Same\n\n[three](t3)\n\n## Sub\n\n- item [x](t1)\n"),
+            ("t3", "# Same\n\ntext [a](t1) and [b](t2)\n"),
+            ("d/t4", "[up](../t2)\n\npara [c](../t3)\n"),
+            ("t5", "# Five\n\n> [q](t3)\n"),
+        ];
+        return all.into_iter().take(n.min(5)).map(|(k, v)| (k.to_string(), v.to_string())).collect();
+    }
     if seed == 0 {
         // the flat library: no links at all, so every path has the same rank and the 100 listed
         // entries are decided by the tie-breaks alone
@@ -163,7 +175,19 @@ pub fn cmd_dump(args: &[String]) -> i32 {
     let oseed: u64 = args[3].parse().unwrap();
     let lib = gen_library(seed, n);
     let mut order: Vec<(String, String)> = lib.iter().map(|(k, v)| (k.clone(), v.clone())).collect();
-    order.shuffle(&mut StdRng::seed_from_u64(oseed));
+    if order.len() <= 5 {
+        // small libraries: the order seed is the index of a permutation (all of them are tried)
+        let mut rest = order.clone();
+        let mut idx = oseed as usize;
+        order.clear();
+        while !rest.is_empty() {
+            let k = idx % rest.len();
+            idx /= rest.len();
+            order.push(rest.remove(k));
+        }
+    } else {
+        order.shuffle(&mut StdRng::seed_from_u64(oseed));
+    }
     let db = match route {
         "insert" => {
             // start from the first note, insert the others one by one in the permuted order
